@@ -209,7 +209,7 @@ func runPanic(c *Ctx) {
 			desc := ""
 			for _, l := range lits {
 				if l.Kind == "ok" && !l.Pol {
-					if ta, ok := l.Of.(*ssa.TypeAssert); ok && core.TypeStr(ta.AssertedType) == "valueConverter" {
+					if ta, ok := l.Of.(*ssa.TypeAssert); ok && core.TypeStr(ta.AssertedType) == p.ValuerIfaceName() {
 						desc = "not a value-converter"
 					}
 				}
@@ -222,7 +222,7 @@ func runPanic(c *Ctx) {
 			}
 			for _, l := range lits {
 				if l.Kind == "ok" && !l.Pol {
-					if ta, ok := l.Of.(*ssa.TypeAssert); ok && core.TypeStr(ta.AssertedType) == "valueConverter" {
+					if ta, ok := l.Of.(*ssa.TypeAssert); ok && core.TypeStr(ta.AssertedType) == p.ValuerIfaceName() {
 						desc = "not a value-converter"
 					}
 				}
@@ -235,7 +235,7 @@ func runPanic(c *Ctx) {
 	}
 	// label kinds implement the value-converter interface (supports the table entries above)
 	for _, k := range []string{kinds.Value, kinds.Arg, kinds.Out} {
-		m := p.Method(p.Arg, k, "value")
+		m := p.Method(p.Arg, k, p.ValuerMethodName())
 		c.R.Add("PANIC", "kind "+k+" implements value()", k, "-", m != nil, "every label-carrying vertex kind can be rendered as a Value (the assertion to the value-converter interface cannot fail for them)", fmt.Sprintf("method found=%v", m != nil))
 	}
 
